@@ -19,7 +19,7 @@ func init() {
 			"(R10.1) the shape of the tree depends on which binary operator is read: somewhere in the expression parser a branch separates '&&' from '||' (or an ordering comparison is made on a value derived from the operator token, as in a precedence table) outside the function that merely maps the token to the AST label -- a parser that treats the two alike builds the same shape for 'a || b && c' and 'a && b || c', so it cannot give '&&' the tighter binding; " +
 			"(R10.2) a '!' applies to one operand: the function that builds the negation node takes its child from the operand parser, or from the expression parser only for a parenthesised group (closing token ')'); " +
 			"(R10.3) parentheses override: a '(' recurses with ')' as the closing token and its result is kept as one operand, and the flattening pass merges a child into its parent only under an equality test of their two operators. " +
-			"Not decided: that every documented spelling is accepted (T[] / Array<T>, dot / bracket access, optional annotations, quotes, comments, separators), that '&&' rather than '||' is the one that binds tighter, equality of truth tables over all expressions. These would need the parser to be run or modelled, which this family does not do.",
+			"(R10.4) the alternative spellings of a relation's type (T[], (A | B)[], SubjectSet<..>[], Array<..>) are parsed by sibling arms of one switch; every arm that builds the relation's types also accepts the optional ',' separator after it, or none does -- an arm that differs rejects a list the others accept. Not decided: that every documented spelling is accepted (T[] / Array<T>, dot / bracket access, optional annotations, quotes, comments, separators), that '&&' rather than '||' is the one that binds tighter, equality of truth tables over all expressions. These would need the parser to be run or modelled, which this family does not do.",
 		Assumptions: []string{
 			"the expression parser is the set of functions of package schema reachable from the function that loops over the binary operator tokens",
 		},
@@ -256,6 +256,8 @@ func runC10(c *Ctx) {
 			strings.Join(bad, "; ")+": '!a && b' would negate 'a && b' (TypeScript: (!a) && b)")
 	}
 
+	r104(c)
+
 	// ---- R10.3
 	// (a) '(' recursion closes on ')'
 	nRec, badRec := 0, 0
@@ -341,4 +343,133 @@ func runC10(c *Ctx) {
 	})
 	r.Check(okEq && nMerge >= 1, "R10.3", core.FuncName(flat), "flattening only of equal operators", p.Pos(flat.Pos()),
 		"a child is merged into its parent only where their operators were compared equal", "a child expression is merged into its parent without a test that both have the same operator: '(a || b) && c' loses its grouping")
+}
+
+// ---- R10.4 sibling arms agree on the optional separator ------------------------------------------
+
+// r104: in the function that parses relation declarations, every arm that
+// appends to the relation's type list must, before the relation is stored,
+// pass a matcher built by optional(",") -- if any arm does. (Sibling
+// implementations of one grammar alternative must agree; Engler et al.)
+func r104(c *Ctx) {
+	p, r := c.P, c.R
+	var fn *ssa.Function
+	for _, f := range p.KetoFuncs(schemaRel) {
+		if f.Parent() != nil {
+			continue
+		}
+		// the function that stores into namespace.Relations and calls optional(",")
+		stores, opt := false, false
+		core.Instrs(f, func(_ *ssa.BasicBlock, _ int, ins ssa.Instruction) {
+			if st, ok := ins.(*ssa.Store); ok {
+				if fa, ok := st.Addr.(*ssa.FieldAddr); ok {
+					if fv := fieldVarOf(fa); fv != nil && fv.Name() == "Relations" {
+						stores = true
+					}
+				}
+			}
+			if isOptionalComma(ins) {
+				opt = true
+			}
+		})
+		if stores && opt {
+			fn = f
+		}
+	}
+	if fn == nil {
+		r.Discharge("R10.4", "", "relation type arms", "", "no function both stores relations and accepts an optional separator (nothing to cross-check)")
+		return
+	}
+	// join: the block that stores Relations
+	var join *ssa.BasicBlock
+	core.Instrs(fn, func(b *ssa.BasicBlock, _ int, ins ssa.Instruction) {
+		if st, ok := ins.(*ssa.Store); ok {
+			if fa, ok := st.Addr.(*ssa.FieldAddr); ok {
+				if fv := fieldVarOf(fa); fv != nil && fv.Name() == "Relations" {
+					join = b
+				}
+			}
+		}
+	})
+	// arms: blocks that append to a []ast.RelationType
+	type arm struct {
+		b   *ssa.BasicBlock
+		pos token.Pos
+	}
+	var arms []arm
+	core.Instrs(fn, func(b *ssa.BasicBlock, _ int, ins ssa.Instruction) {
+		call, ok := ins.(*ssa.Call)
+		if !ok {
+			return
+		}
+		bi, ok := call.Call.Value.(*ssa.Builtin)
+		if !ok || bi.Name() != "append" {
+			return
+		}
+		if sl, ok := call.Type().Underlying().(*types.Slice); ok && core.IsNamed(sl.Elem(), astPkg, "RelationType") {
+			arms = append(arms, arm{b, call.Pos()})
+		}
+	})
+	var with, without []string
+	for _, a := range arms {
+		// from the arm to the join: is an optional(",") call passed on every path?
+		seen := map[*ssa.BasicBlock]bool{}
+		miss := false
+		var walk func(b *ssa.BasicBlock, start bool)
+		walk = func(b *ssa.BasicBlock, start bool) {
+			if seen[b] || miss {
+				return
+			}
+			seen[b] = true
+			for _, ins := range b.Instrs {
+				if isOptionalComma(ins) {
+					return
+				}
+			}
+			if b == join {
+				miss = true
+				return
+			}
+			for _, sc := range b.Succs {
+				walk(sc, false)
+			}
+		}
+		walk(a.b, true)
+		if miss {
+			without = append(without, p.Pos(a.pos))
+		} else {
+			with = append(with, p.Pos(a.pos))
+		}
+	}
+	if len(arms) < 3 {
+		r.Undecide("R10.4", core.FuncName(fn), "relation type arms", p.Pos(fn.Pos()), fmt.Sprintf("%d arms that build the relation's types found (floor 3)", len(arms)))
+		return
+	}
+	r.Check(len(with) == 0 || len(without) == 0, "R10.4", core.FuncName(fn), "relation type arms agree on the optional ','", p.Pos(fn.Pos()),
+		fmt.Sprintf("all %d arms accept the optional separator after the type", len(with)),
+		fmt.Sprintf("%d spelling(s) of a relation type accept an optional ',' after the type (%s) but %d do not (%s): 'a: Array<T>, b: U[]' is rejected where 'a: T[], b: U[]' is accepted", len(with), strings.Join(with, ", "), len(without), strings.Join(without, ", ")))
+}
+
+// isOptionalComma: a call optional(",") (a matcher that accepts a missing comma).
+func isOptionalComma(ins ssa.Instruction) bool {
+	call, ok := ins.(*ssa.Call)
+	if !ok {
+		return false
+	}
+	sc := call.Call.StaticCallee()
+	if sc == nil || sc.Name() != "optional" {
+		return false
+	}
+	for _, a := range call.Call.Args {
+		for _, el := range variadicElems(a) {
+			v := el
+			if mi, ok := el.(*ssa.MakeInterface); ok {
+				v = mi.X
+			}
+			if k, ok := v.(*ssa.Const); ok && k.Value != nil && k.Value.ExactString() == `","` {
+				return true
+			}
+		}
+	}
+	return false
 }
